@@ -1089,6 +1089,7 @@ fn drain(a: &Arena, sh: &Shared) {
     n
   });
   let r = std::panic::catch_unwind(std::panic::AssertUnwindSafe(|| {
+    let mut got: Vec<LiveH> = vec![];
     for round in 0..12 {
       let sz = if round % 2 == 0 { 8 } else { 24 };
       ENG.with(|e| {
@@ -1098,11 +1099,20 @@ fn drain(a: &Arena, sh: &Shared) {
       match a.alloc_bytes(sz) {
         Ok(mut b) => {
           unsafe { b.detach() };
-          reg_alloc(n, sh, meta_of(&b), "bytes", 0xE0);
+          got.push(reg_alloc(n, sh, meta_of(&b), "bytes", 0xE0));
         }
         Err(_) => {}
       }
     }
+    // walk the whole list twice more: an insertion (release of the first block obtained, which is
+    // not on top any more) and discard_freelist
+    ENG.with(|e| e.borrow_mut().solo = Some((n, 800)));
+    if got.len() > 1 {
+      let l = got[0].clone();
+      release(n, sh, a, &l);
+    }
+    ENG.with(|e| e.borrow_mut().solo = Some((n, 800)));
+    let _ = a.discard_freelist();
   }));
   let _ = r;
   ENG.with(|e| {
